@@ -95,7 +95,8 @@ class AccessDB:
                     top = self.R.top_field(r[1], r[2]) if g["type"].startswith("%struct") else None
                     region = (r[1], top)
                     for ls in states:
-                        self.accesses.append(Access(region, field or ("<%s>" % r[0]), mode, ls, labs, fn, inst, what, key))
+                        # unknown location inside a heap object is a wildcard (None) for the race rule; the global slot itself is "<in>"
+                        self.accesses.append(Access(region, field or ("<in>" if r[0] == "in" else None), mode, ls, labs, fn, inst, what, key))
         self.by_region = defaultdict(list)
         for a in self.accesses:
             self.by_region[a.region].append(a)
@@ -139,6 +140,22 @@ def protects(la, lb):
     return False
 
 
+STRING_CALLS = ("strcmp", "strncmp", "strlen", "strdup", "strndup", "strcpy", "strncpy", "strchr", "strstr", "g_strdup", "syslog", "snprintf", "sprintf", "vsnprintf")
+
+
+def may_alias(a, b):
+    """can two accesses to the same region with these labels touch the same bytes?  Equal labels do; an unknown label (None)
+    is a wildcard, except that a string-content access (strcmp & co. on a char buffer) cannot touch a struct member"""
+    if a.field == b.field:
+        return True
+    if a.field is not None and b.field is not None:
+        return False
+    unk, other = (a, b) if a.field is None else (b, a)
+    if unk.what.startswith("call ") and unk.what.split()[1] in STRING_CALLS:
+        return other.field is None or other.field.startswith("*")
+    return True
+
+
 def races(db):
     """list of (region, field, write access, other access) for conflicting parallel accesses without a common protecting lock"""
     out = []
@@ -157,6 +174,8 @@ def races(db):
             seen = set()
             for wa in writes:
                 for b in cands:
+                    if not may_alias(wa, b):
+                        continue
                     if b is wa:
                         # a write racing with itself from two threads of a multi-instance class
                         if not parallel(wa.labels, wa.labels) or protects(wa.ls, wa.ls):
